@@ -30,9 +30,10 @@ ASSUMPTIONS = ["relations are well formed (distinct non-empty variable names, sq
 
 HEADER = ("From Coq Require Import String List Bool Arith.\nFrom PM Require Import Semiring Poly Rel.\nImport ListNotations.\n"
           "Open Scope string_scope.\nOpen Scope list_scope.\n"
-          "Inductive rex := RLeaf (vars : list string) (x : string) (vec : list poly) | RComp (a b : rex) | RSum (a b : rex) | RFix (a : rex) | RW (a : rex) | RL (a : rex) (x : string).\n"
+          "Inductive rex := REmpty | RLeaf (vars : list string) (x : string) (vec : list poly) | RComp (a b : rex) | RSum (a b : rex) | RFix (a : rex) | RW (a : rex) | RL (a : rex) (x : string).\n"
           "Fixpoint ev (e : rex) : option rel :=\n"
           "  match e with\n"
+          "  | REmpty => Some rel_empty\n"
           "  | RLeaf vars x vec => replace_column (rel_identity vars) vec x\n"
           "  | RComp a b => match ev a, ev b with Some p, Some q => Some (rel_comp p q) | _, _ => None end\n"
           "  | RSum a b => match ev a, ev b with Some p, Some q => Some (rel_sum p q) | _, _ => None end\n"
@@ -87,6 +88,8 @@ def gen_leaf(rng, site):
 
 def gen_rex(rng, depth, site):
     if depth == 0 or rng.random() < 0.2:
+        if rng.random() < 0.1:
+            return ("empty",)          # Relation(): no variables; stands for skip, i.e. the identity, in sums and compositions alike
         return gen_leaf(rng, site)
     r = rng.random()
     if r < 0.45:
@@ -103,6 +106,8 @@ def gen_rex(rng, depth, site):
 def ev_real(e):
     from pymwp import Relation
     k = e[0]
+    if k == "empty":
+        return Relation()
     if k == "leaf":
         _, vs, x, vec = e
         return Relation.identity(list(vs)).replace_column([PL.from_data(p) for p in vec], x)
@@ -129,7 +134,7 @@ def ev_real(e):
 def fill_lc(e):
     """choose the loop variable of every lc node from the real relation's variables (deterministic: first)"""
     k = e[0]
-    if k == "leaf":
+    if k in ("leaf", "empty"):
         return e
     if k in ("comp", "sum"):
         return (k, fill_lc(e[1]), fill_lc(e[2]))
@@ -146,6 +151,8 @@ def fill_lc(e):
 
 def cq_rex(e):
     k = e[0]
+    if k == "empty":
+        return "REmpty"
     if k == "leaf":
         return "(RLeaf %s %s %s)" % (vlib.cq_list([vlib.cq_str(v) for v in e[1]]), vlib.cq_str(e[2]), vlib.cq_list([PL.cq_poly(p) for p in e[3]]))
     if k == "comp":
@@ -180,7 +187,7 @@ def smul_full(a, b):
 def semantic_check(e, failing, memo):
     """operands vs result at all vectors (top-level operator of e only)"""
     k = e[0]
-    if k == "leaf":
+    if k in ("leaf", "empty"):
         return
     try:
         ops = [rel_data(ev_real(x)) for x in e[1:] if isinstance(x, tuple)]
@@ -337,7 +344,7 @@ def run(ctx):
                 mism.append(f"stream relation-expressions shard {si}: model and code differ on {len(idx)} cases; first: {sh[idx[0]][0]!r}")
     else:
         mism.append("model not built: relation correspondence not run")
-    distinct = len({repr(e) for e, _ in cases if e[0] != "leaf"})
+    distinct = len({repr(e) for e, _ in cases if e[0] not in ("leaf", "empty")})
     stats = {"evaluations": len(cases) + nsplit, "distinct_nontrivial": distinct,
              "rule": "random relation expressions: leaves = identity over a random ordered variable list with one column replaced by analysis-shaped polynomials; "
                      "operators composition/sum/fixpoint/W-correction/L-correction, depth <= 3; non-trivial = distinct expression with at least one operator; plus split checks of statement sequences",
